@@ -372,11 +372,191 @@ pub fn run(report: &Report, thorough: bool) -> Evidence {
         |_| (),
     );
 
+    // ---- fixed method, synthetic layout: every option flip (thorough: every pair of flips) from all-off and all-on,
+    // with continuations that exercise each helper (sign at the start, chandrabindu before a sign, reph key, left-standing
+    // sign first, ro-/zo-fola, hasanta, number-pad key, quotes): every sequence of <= 2 keys over a 14-key alphabet, then a
+    // backspace and the four word endings. A method that keeps an option value from its creation shows here.
+    let synth_runs = AtomicU64::new(0);
+    let synth_rends = AtomicU64::new(0);
+    {
+        let synth = fixture("layout_synth.json");
+        let mut spairs: Vec<(Opts, Opts)> = vec![];
+        for base in [0u32, 0b11_1111_1111] {
+            for i in 0..10 {
+                spairs.push((fx(&synth, base), fx(&synth, base ^ (1 << i))));
+                if thorough {
+                    for j in (i + 1)..10 {
+                        spairs.push((fx(&synth, base), fx(&synth, base ^ (1 << i) ^ (1 << j))));
+                    }
+                }
+            }
+        }
+        use crate::props::c12::key_ev;
+        let keys: Vec<Ev> = vec![
+            key_ev('k', false), key_ev('a', false), key_ev('i', false), key_ev('v', false), key_ev('>', false), key_ev('/', false),
+            key_ev('k', true), key_ev('r', true), key_ev('z', true), key_ev('r', false), key_ev('\'', false), key_ev('"', false),
+            key_ev('[', false), Ev::key(crate::keys::by_name("VC_KP_1").unwrap().code),
+        ];
+        let mut seqs: Vec<Vec<Ev>> = vec![];
+        for a in &keys {
+            seqs.push(vec![a.clone()]);
+            for b in &keys {
+                seqs.push(vec![a.clone(), b.clone()]);
+            }
+        }
+        if thorough {
+            for a in &keys[..10] {
+                for b in &keys[..10] {
+                    for c in &keys[..10] {
+                        seqs.push(vec![a.clone(), b.clone(), c.clone()]);
+                    }
+                }
+            }
+        }
+        let sbefores: Vec<Vec<Ev>> = vec![
+            vec![],
+            vec![keys[0].clone(), keys[6].clone(), Ev::Finish],
+            vec![keys[2].clone(), Ev::Finish],
+            vec![keys[0].clone(), keys[1].clone(), Ev::Commit(0)],
+            vec![keys[11].clone(), keys[0].clone(), Ev::CtrlBs],
+        ];
+        let endings = [Ev::Finish, Ev::Commit(0), Ev::CtrlBs];
+        par_for(
+            spairs.len() * sbefores.len(),
+            1,
+            |w| scratch_xdg(&format!("c11s-{}", w)),
+            |xdg, idx| {
+                let (mut c1, mut c2) = spairs[idx % spairs.len()].clone();
+                let before = &sbefores[idx / spairs.len()];
+                c1.xdg = xdg.clone();
+                c2.xdg = xdg.clone();
+                let run = |ctx: &mut Ctx, seq: &[Ev], ending: &Ev, evs: &mut Vec<Ev>| -> Result<Vec<Rend>, Fail> {
+                    let mut rends = vec![];
+                    let mut all: Vec<Ev> = seq.to_vec();
+                    all.push(Ev::Bs);
+                    all.push(seq[0].clone());
+                    all.push(ending.clone());
+                    all.push(seq[seq.len() - 1].clone());
+                    all.push(Ev::Finish);
+                    for e in all {
+                        evs.push(e.clone());
+                        if let Out::Sugg(r) = ctx.apply(&e)? {
+                            rends.push(r);
+                        }
+                    }
+                    Ok(rends)
+                };
+                let mut live = match Ctx::new(&c1) {
+                    Ok(c) => c,
+                    Err(p) => {
+                        report.add(Violation::new("C11", "panic-at-creation", "panic-at-creation").opts(&c1).detail(p.short()));
+                        return;
+                    }
+                };
+                let mut fresh = match Ctx::new(&c2) {
+                    Ok(c) => c,
+                    Err(p) => {
+                        report.add(Violation::new("C11", "panic-at-creation", "panic-at-creation").opts(&c2).detail(p.short()));
+                        return;
+                    }
+                };
+                let back = Ev::Update(Box::new(c1.clone()));
+                let up = Ev::Update(Box::new(c2.clone()));
+                // one long-lived context per (pair, history): switched back to cfg, history, update, continuation - so later
+                // rounds also start from a context that has been re-configured many times
+                let mut evs: Vec<Ev> = vec![];
+                for (si, seq) in seqs.iter().enumerate() {
+                    let ending = &endings[si % endings.len()];
+                    synth_runs.fetch_add(1, Ordering::Relaxed);
+                    let start = evs.len();
+                    let mut prefix_ok = true;
+                    for e in std::iter::once(&back).chain(before.iter()).chain(std::iter::once(&up)) {
+                        evs.push(e.clone());
+                        if let Err(f) = live.apply(e) {
+                            report.add(fail_violation("C11", &f, &c1, &evs));
+                            prefix_ok = false;
+                            break;
+                        }
+                    }
+                    if !prefix_ok {
+                        return;
+                    }
+                    let got = run(&mut live, seq, ending, &mut evs);
+                    let mut e2 = vec![];
+                    fresh = match Ctx::new(&c2) {
+                        Ok(c) => c,
+                        Err(_) => return,
+                    };
+                    let exp = run(&mut fresh, seq, ending, &mut e2);
+                    events.fetch_add((evs.len() - start + e2.len()) as u64, Ordering::Relaxed);
+                    match (got, exp) {
+                        (Ok(g), Ok(x)) => {
+                            synth_rends.fetch_add(g.len() as u64, Ordering::Relaxed);
+                            if g != x {
+                                let k = g.iter().zip(x.iter()).position(|(a, b)| a != b).unwrap_or(0);
+                                // shortest reproduction: the last round only, in a new context
+                                let mut short: Vec<Ev> = before.clone();
+                                short.push(up.clone());
+                                short.extend(evs[evs.len() - e2.len()..].iter().cloned());
+                                let mut rep = Ctx::new(&c1).expect("ctx");
+                                let mut reproduced = false;
+                                let mut rr = vec![];
+                                for e in &short {
+                                    if let Ok(Out::Sugg(r)) = rep.apply(e) {
+                                        rr.push(r);
+                                    }
+                                }
+                                if rr.len() >= x.len() && rr[rr.len() - x.len()..] != x[..] {
+                                    reproduced = true;
+                                }
+                                let flipped: Vec<String> = {
+                                    let (a, b) = (c1.flags(), c2.flags());
+                                    let (sa, sb): (std::collections::BTreeSet<&str>, std::collections::BTreeSet<&str>) = (a.split('+').collect(), b.split('+').collect());
+                                    sa.symmetric_difference(&sb).map(|s| s.to_string()).collect()
+                                };
+                                report.add(
+                                    Violation::new("C11", "update-differs-from-new-context", &format!("update-differs:fixed-option-flip:{}", flipped.join("+")))
+                                        .opts(&c1)
+                                        .events(if reproduced { &short } else { &evs })
+                                        .feat("new_flags", c2.flags())
+                                        .feat("new_layout", c2.layout.clone())
+                                        .detail(format!(
+                                            "layout_synth.json, update to [{}]: rendering {} of the continuation is {} in the updated context but {} in a new one{}",
+                                            c2.flags(),
+                                            k,
+                                            g.get(k).map(|r| r.to_json()).unwrap_or_default(),
+                                            x.get(k).map(|r| r.to_json()).unwrap_or_default(),
+                                            if reproduced { "" } else { " (only after the earlier rounds of this long-lived context)" }
+                                        )),
+                                );
+                                return;
+                            }
+                        }
+                        (Err(f), _) => {
+                            report.add(fail_violation("C11", &f, &c1, &evs));
+                            return;
+                        }
+                        (_, Err(f)) => {
+                            report.add(fail_violation("C11", &f, &c2, &e2));
+                            return;
+                        }
+                    }
+                    if evs.len() > 4000 {
+                        evs.clear();
+                    }
+                }
+            },
+            |_| (),
+        );
+    }
+
     let mut ev = Evidence::new("C11", &report.tier, "model_checking");
-    ev.set("states", runs.load(Ordering::Relaxed).max(1));
+    ev.set("synthetic_layout_option_flip_runs", synth_runs.load(Ordering::Relaxed));
+    ev.set("synthetic_layout_renderings_compared", synth_rends.load(Ordering::Relaxed));
+    ev.set("states", (runs.load(Ordering::Relaxed) + synth_runs.load(Ordering::Relaxed)).max(1));
     ev.set("transitions", events.load(Ordering::Relaxed).max(1));
-    ev.set("traces_validated_against_impl", runs.load(Ordering::Relaxed));
-    ev.set("renderings_compared", rend_compared.load(Ordering::Relaxed));
+    ev.set("traces_validated_against_impl", runs.load(Ordering::Relaxed) + synth_runs.load(Ordering::Relaxed));
+    ev.set("renderings_compared", rend_compared.load(Ordering::Relaxed) + synth_rends.load(Ordering::Relaxed));
     ev.set("configuration_pairs", pairs.len());
     ev.set("initial_user_file_states", initials.len());
     ev.set("second_edit_rounds_for_short_histories", edits.len());
